@@ -40,6 +40,10 @@ class State:
             elif n == "text":
                 f = open(path, "w", encoding="utf-8", newline="")
                 self.writers[n], self.kind[n], self.path[n], self.stream[n] = FileWriter(f), "stream", path, f
+            elif n == "codecs":
+                import codecs
+                f = codecs.open(path, "w", "utf-8")          # a text stream that is not an io.TextIOBase subclass
+                self.writers[n], self.kind[n], self.path[n], self.stream[n] = FileWriter(f), "stream", path, f
             elif n == "binary":
                 f = open(path, "wb")
                 self.writers[n], self.kind[n], self.path[n], self.stream[n] = FileWriter(f), "stream", path, f
@@ -216,10 +220,10 @@ def systems(tier):
     if tier == "quick":
         return [("lf-4writers", C14System(["pathA", "text", "rec1", "rec2"], "\\n", 2), 5, None),
                 ("crlf-3writers", C14System(["rec1", "pathA", "binary"], "\\r\\n", 2), 5, None),
-                ("output-option", C14System(["cfgpath", "rec1"], "\\n", 2), 5, None)]
+                ("output-option", C14System(["cfgpath", "rec1", "codecs"], "\\n", 2), 4, None)]
     return [("lf-5writers", C14System(["pathA", "pathB", "text", "rec1", "rec2"], "\\n", 3), 6, None),
             ("crlf-4writers", C14System(["rec1", "pathA", "binary", "text"], "\\r\\n", 3), 7, None),
-            ("output-option", C14System(["cfgpath", "rec1", "pathA"], "\\n", 3), 7, None)]
+            ("output-option", C14System(["cfgpath", "rec1", "pathA", "codecs"], "\\n", 3), 6, None)]
 
 
 def run(tier, seed):
